@@ -224,3 +224,117 @@ pub fn run(o: &Opts) -> serde_json::Value {
 fn cfg_last(steps: &mut Vec<Step>, c: CfgBits) {
     steps.push(Step::SetCfg { cfg: c });
 }
+
+
+/// Leg (C) at the I/O boundary (spec/TraceSource.tla): every `fill_buf` / `consume` /
+/// Interrupted / Pending / error of the environment is recorded between the Call and Ret of
+/// each public call, so TLC steps Source.tla through exactly the same refills.
+pub fn record_source(out: &str, seed: u64, n: usize, max_len: usize) -> serde_json::Value {
+    let mut rng = StdRng::seed_from_u64(seed);
+    let mut f = std::io::BufWriter::new(std::fs::File::create(out).expect("trace file"));
+    let corp = corpus();
+    let (mut events, mut traces, mut nontrivial, mut fills) = (0u64, 0u64, 0u64, 0u64);
+    let mut samples = Vec::new();
+    for i in 0..n {
+        let mut input = match i % 4 {
+            0 => { let sz = [3, 8, 20][rng.gen_range(0..3)]; gen::document(&mut rng, sz) }
+            1 => { let d = gen::document(&mut rng, 6); let k = rng.gen_range(1..3); gen::mutate(&mut rng, &d, k) }
+            2 => { let k = rng.gen_range(0..30); gen::random_bytes(&mut rng, k) }
+            _ => if corp.is_empty() { gen::document(&mut rng, 5) } else { corp[i / 4 % corp.len()].clone() },
+        };
+        if input.len() > max_len {
+            let at = rng.gen_range(max_len / 2..=max_len);
+            input.truncate(at);
+        }
+        // Source.tla models the BOM-less stream (the sniff is exempt in C02)
+        while input.starts_with(&[0xEF, 0xBB, 0xBF]) {
+            input.drain(..3);
+        }
+        let mut cfg: CfgBits = crate::reader::DEFAULT;
+        for b in cfg.iter_mut() {
+            if rng.gen_bool(0.3) {
+                *b ^= 1;
+            }
+        }
+        if cfg[6] == 1 && cfg[5] == 0 {
+            cfg[5] = 1; // trim_text_end without trim_text_start is the recorded finding C16-1; Source.tla is the design
+        }
+        let nbytes = input.len();
+        let mut plan = Plan { cuts: gen::random_cuts(&mut rng, nbytes), ..Default::default() };
+        let faulty = rng.gen_bool(0.4);
+        if faulty {
+            for _ in 0..rng.gen_range(0..3) {
+                plan.interrupts.push((rng.gen_range(0..nbytes + 2), rng.gen_range(1..3)));
+            }
+            if rng.gen_bool(0.5) {
+                plan.error_at = Some(rng.gen_range(0..nbytes + 2));
+            }
+        }
+        let is_async = rng.gen_bool(0.4);
+        if is_async {
+            plan.pendings = vec![rng.gen_range(0..3), 0, 1];
+        }
+        let steps = crate::reader::reads(nbytes + 4);
+        let r = run_reader(&input, &cfg, &steps, &if is_async { Src::Async(plan.clone()) } else { Src::Buffered(plan.clone()) });
+        writeln!(f, "{}", json!({"t": "SReset", "in": input, "cfg": cfg, "src": if is_async {"async"} else {"buffered"}, "run": i})).unwrap();
+        events += 1;
+        let mut e0 = 0usize;
+        let mut eofs = 0;
+        let mut any_markup = false;
+        for (si, so) in r.obs.iter().enumerate() {
+            writeln!(f, "{}", json!({"t": "SCall"})).unwrap();
+            events += 1;
+            let e1 = r.env_at[si];
+            let evs = &r.env[e0..e1];
+            let mut k = 0;
+            while k < evs.len() {
+                match &evs[k] {
+                    EnvEv::Fb { hi } => {
+                        let mut co = 0usize;
+                        let mut j = k + 1;
+                        while j < evs.len() {
+                            match &evs[j] {
+                                EnvEv::Consume { n } => co += n,
+                                EnvEv::Fill { .. } => {}
+                                _ => break,
+                            }
+                            j += 1;
+                        }
+                        // a Fill logged right before the next Fb belongs to that next call of fill_buf: stop before it
+                        writeln!(f, "{}", json!({"t": "SFb", "hi": hi, "co": co})).unwrap();
+                        events += 1;
+                        fills += 1;
+                        k = j;
+                        continue;
+                    }
+                    EnvEv::Interrupted => { writeln!(f, "{}", json!({"t": "SIntr"})).unwrap(); events += 1; }
+                    EnvEv::Pending => { writeln!(f, "{}", json!({"t": "SPend"})).unwrap(); events += 1; }
+                    EnvEv::IoError => { writeln!(f, "{}", json!({"t": "SIo"})).unwrap(); events += 1; }
+                    EnvEv::Fill { .. } | EnvEv::Consume { .. } => {}
+                }
+                k += 1;
+            }
+            e0 = e1;
+            writeln!(f, "{}", json!({"t": "SRet", "k": so.o.k, "e": so.o.e, "b": so.o.b, "n": so.o.n, "x": so.o.x, "p": so.o.p, "q": so.o.q})).unwrap();
+            events += 1;
+            if !matches!(so.o.k.as_str(), "Text" | "Eof") {
+                any_markup = true;
+            }
+            if so.o.k == "Eof" {
+                eofs += 1;
+            }
+            if eofs >= 2 || so.o.k == "Panic" || (so.o.k == "Err" && so.o.e == "Io") {
+                break;
+            }
+        }
+        traces += 1;
+        if any_markup {
+            nontrivial += 1;
+        }
+        if samples.len() < 2 && any_markup && nbytes < 60 {
+            samples.push(json!({"input_lossy": String::from_utf8_lossy(&input), "cuts": plan.cuts, "interrupts": plan.interrupts, "error_at": plan.error_at, "async": is_async}));
+        }
+    }
+    f.flush().unwrap();
+    json!({"traces": traces, "events": events, "nontrivial": nontrivial, "fill_buf_calls": fills, "samples": samples, "runs": traces, "comparisons": events})
+}
